@@ -117,17 +117,25 @@ def scanFrom {β γ : Type} (f : β → γ → β) : β → List γ → List β
   | _, [] => []
   | a, x :: xs => f a x :: scanFrom f (f a x) xs
 
-/-- `fp2_batched_inv(x, len)` as coded, `len = xs.length ≥ 1` (the C code reads `x[0]` and declares
-    zero-length VLAs for `len = 0`: outside the API; the model returns `[]` there).
+/-- the product chain of `fp2_batched_inv(x, len)` as coded (the whole function before the repair), `len = xs.length ≥ 1`
+    (the C code reads `x[0]` and declares zero-length VLAs for `len = 0`: outside the API; the model returns `[]` there).
     `t1[i] = x0⋯xi`; `t2[0] = 1/t1[len-1]`, `t2[i] = t2[i-1]·x[len-i]`;
     `x[0] = t2[len-1]`, `x[i] = t1[i-1]·t2[len-i-1]`. -/
-def fp2_batched_inv : List (Fp2 α) → List (Fp2 α)
+def fp2_batched_inv_core : List (Fp2 α) → List (Fp2 α)
   | [] => []
   | x0 :: xs =>
     let t1 := x0 :: scanFrom (fp2_mul O) x0 xs
     let inverse := fp2_inv O (t1.getLast?.getD x0)
     let t2 := inverse :: scanFrom (fp2_mul O) inverse xs.reverse
     (t2.getLast?.getD inverse) :: List.zipWith (fp2_mul O) t1.dropLast t2.reverse.tail
+
+/-- `fp2_batched_inv(x, len)` as coded after the repair: `z[i] = fp2_is_zero(x[i])`, `x[i] = select(x[i], one, z[i])`,
+    the product chain, then `x[i] = select(x[i], zero, z[i])` -/
+def fp2_batched_inv (xs : List (Fp2 α)) : List (Fp2 α) :=
+  let z := xs.map (fp2_is_zero O)
+  let xs' := List.zipWith (fun x zi => fp2_select O x (fp2_set_one O) zi) xs z
+  let ys := fp2_batched_inv_core O xs'
+  List.zipWith (fun y zi => fp2_select O y (fp2_set_zero O) zi) ys z
 
 /-- `fp2_sqrt` as coded (constant-time complex square root with sign normalisation) -/
 def fp2_sqrt (x : Fp2 α) : Fp2 α :=
